@@ -144,3 +144,21 @@ K('C19', 'estimate-total-floor', [(PI, "        self.measurements = measurements
 K('C19', 'emd-raw-step', [(PI, "        logQ += np.log(total) - logsumexp(logQ)\n        Q = np.exp(logQ)", "        Q = np.exp(logQ)\n        Q *= total / Q.sum()")], 'exp-normalised')
 T('C19', 'emd-compare-flipped-form', [(PI, "        if loss - new_loss >= 0.5*alpha*dL.dot(P-Q):", "        if 0.5*alpha*dL.dot(P-Q) <= loss - new_loss:")])
 T('C19', 'emd-hoisted-shift', [(PI, "        logQ += np.log(total) - logsumexp(logQ)", "        shift = np.log(total) - logsumexp(logQ)\n        logQ = logQ + shift")])
+
+# ------------------------------------------------------------------ C15
+K('C15', 'project-drops-weights', [(DS, "        return Dataset(data, domain, self.weights)", "        return Dataset(data, domain)")], 'project-consistent')
+K('C15', 'init-keeps-frame', [(DS, "        self.df = df.loc[:,domain.attrs]", "        self.df = df")], 'column-order')
+K('C15', 'init-fastpath-same-width', [(DS, "        self.df = df.loc[:,domain.attrs]", "        if len(df.columns) == len(domain.attrs):\n            self.df = df\n        else:\n            self.df = df.loc[:,domain.attrs]")], 'column-order')
+K('C15', 'merge-swapped-attrs', [(DOM, "        return Domain(self.attrs + extra.attrs, self.shape + extra.shape)", "        return Domain(extra.attrs + self.attrs, self.shape + extra.shape)")], 'parallel-domain')
+K('C15', 'datavector-n-edges', [(DS, "        bins = [range(n+1) for n in self.domain.shape]", "        bins = [range(n) for n in self.domain.shape]")], 'histogram')
+K('C15', 'datavector-no-weights', [(DS, "np.histogramdd(self.df.values, bins, weights=self.weights)[0]", "np.histogramdd(self.df.values, bins)[0]")], 'histogram')
+K('C15', 'project-sorted-cols', [(DS, "        data = self.df.loc[:,cols]", "        data = self.df.loc[:,sorted(cols)]")], 'project-consistent')
+K('C15', 'size-truthiness', [(DOM, "        if attrs == None:", "        if not attrs:")], 'none-test')
+K('C15', 'marginalize-set-diff', [(DOM, "        proj = [a for a in self.attrs if not a in attrs]", "        proj = list(set(self.attrs) - set(attrs))")], 'order-filter')
+K('C15', 'canonical-request-order', [(DOM, "        return tuple(a for a in self.attrs if a in attrs)", "        return tuple(a for a in attrs if a in self.attrs)")], 'order-filter')
+K('C15', 'drop-sets-df', [(DS, "        proj = [c for c in self.domain if c not in cols]\n        return self.project(proj)", "        proj = [c for c in self.domain if c not in cols]\n        self.df = self.df.loc[:, proj]\n        return self.project(proj)")], 'owner')
+T('C15', 'project-cols-listed', [(DS, "        data = self.df.loc[:,cols]\n        domain = self.domain.project(cols)", "        data = self.df.loc[:,list(cols)]\n        domain = self.domain.project(cols)")])
+T('C15', 'init-bracket-selection', [(DS, "        self.df = df.loc[:,domain.attrs]", "        self.df = df[list(domain.attrs)]")])
+T('C15', 'size-is-none', [(DOM, "        if attrs == None:", "        if attrs is None:")])
+T('C15', 'datavector-arange', [(DS, "        bins = [range(n+1) for n in self.domain.shape]", "        bins = [np.arange(n+1) for n in self.domain.shape]")])
+K('C14', 'sum-none-truthiness', [(F, "    def sum(self, attrs = None):\n        if attrs is None:", "    def sum(self, attrs = None):\n        if not attrs:")], 'none-test')
